@@ -38,6 +38,12 @@ CHECKS['C15'] = dict(
     text='Per scale cell each return path of floor/ceil/trunc/fract implies the defining inequalities (e.g. 0 <= x - 10^p*floor < 10^p), neg/abs return the exact terms, the four predicates have exactly their truth condition; magnitude is proved constant k-p on each of the 39 decades x 2 signs x 19 scales and 0 for zero (exhaustive: every decade cell contains both end points). Thorough tier adds the num-traits impls (forwarders, signum, abs_sub, from_str_radix).',
     note=TB + 'The defect found by this check (magnitude of a non-normalised zero) is repaired by a fix: commit in /repo.')
 
+CHECKS['C05'] = dict(
+    category='proof', design_ref='DESIGN.md section 5 C05, Appendix A.1, A.5',
+    technique=ABSINT + '; modular: kernel K, floor helper F and i128_div_rounded R are proved once, callers use the proved summary',
+    text='(K) round_quot is interpreted with symbolic quot/rem/divisor for each of the 8 modes (passed as Some(mode) and via None -> default()): on every path the facts established by the kernel\'s own branches must determine the increment prescribed by the mode table, and the returned term is quot + that increment; (F),(R) likewise for the floor-division helper and i128_div_rounded over sign cells of the divisor. round/checked_round: per (p, n) cell - quick: boundary n values, thorough: all 19 x 256 - the value is unchanged for n >= p, Rnd(x/10^(p-n)) [x 10^-n] at scale max(n,0), failure only as overflow of that product, checked_round never panics; for p-n >= 39 every (mode, sign of x) class is checked against RoundSpec with the helpers inlined.',
+    note=TB + 'mode semantics as tabulated in DESIGN.md Appendix A.1; the defect found here (far-below-half values rounded to zero under directed modes) is repaired by a fix: commit.')
+
 NOT_APPLICABLE = {
     'C07': 'Display/parse round trip is a value-level property of run-time digit strings across two algorithms (core::fmt and a byte parser); no structural clause that is both necessary and checkable without executing or symbolically solving; see DESIGN.md section 7.',
     'C12': 'Bit-exact float rounding of Decimal -> f64/f32 over 2^127 x 19 inputs: no sound static abstract domain in reach relates the produced bit pattern to the nearest float; see DESIGN.md section 7.',
